@@ -1,6 +1,10 @@
 import SpoxModel.Lemmas.Emit
 import SpoxModel.Model.Custom
+import SpoxModel.Model.CustomInline
+import SpoxModel.Generated.AdaptAttrInventory
 import SpoxModel.Props.C04
+import SpoxModel.Props.C01
+import SpoxModel.Lemmas.Prog
 /-!
 # C18 — user-defined operators are emitted verbatim and compose like standard ones
 
@@ -357,6 +361,204 @@ theorem custom_composes (p : KProg) (hwf : BuildAlg.WF p.erase) (b : BuildAlg.Bu
   obtain ⟨h1, h2⟩ := C04.emitted_once p.erase hwf b tr h n hna
   exact ⟨h1, h2, fun c hc' => C04.least_enclosing p.erase hwf b tr h (.node n) c hc'⟩
 
+/-! ## the declared types are what the Vars report and what the built graph carries -/
+
+section carried
+variable {T V : Type}
+
+/-- `Node.inference` on the fresh output Vars works key by key -/
+theorem inference_pointwise (check : T → V → Bool) (thook : List (String × T)) (vhook : List (String × V))
+    (keys : List String) :
+    (inference check thook vhook (freshOuts keys)).1 = keys.map (outAfter check thook vhook) := by
+  simp [inference, freshOuts, outAfter, List.map_map, Function.comp]
+
+/-- **declared_type_reported.** The type an output Var of a user-defined operator reports is exactly
+    the type hook's entry for its key — `none` (untyped) when the hook has no entry or is absent. -/
+theorem declared_type_reported (check : T → V → Bool) (thook : List (String × T))
+    (vhook : List (String × V)) (k : String) :
+    (outAfter check thook vhook k).type = lookup thook k ∧ (outAfter check thook vhook k).key = k := by
+  unfold outAfter mergeType mergeValue
+  cases h1 : lookup thook k <;> cases h2 : lookup vhook k <;> simp <;> (try (split <;> simp_all))
+
+/-- **declared_types_carried.** Request any outputs of a user-defined operator as results
+    (`req`: result name, output key). If `Graph.to_onnx` produces the result infos at all, then they
+    are, in order, each requested name with *exactly the type the hook declared for that key*; in
+    particular every requested output had a hook entry (and a concrete one when `concrete=True`). -/
+theorem declared_types_carried (check : T → V → Bool) (thook : List (String × T))
+    (vhook : List (String × V)) (conc : T → Bool) (rc : Bool) (req : List (String × String))
+    (infos : List (String × T))
+    (h : resultInfo conc rc (req.map fun p => (p.1, outAfter check thook vhook p.2)) = .ok infos) :
+    infos.map (fun i => (i.1, some i.2)) = req.map (fun p => (p.1, lookup thook p.2)) ∧
+    (rc = true → ∀ i ∈ infos, conc i.2 = true) := by
+  induction req generalizing infos with
+  | nil => simp [resultInfo] at h; subst h; simp
+  | cons p rest ih =>
+    simp only [List.map_cons, resultInfo, (declared_type_reported check thook vhook p.2).1] at h
+    cases hl : lookup thook p.2 with
+    | none => rw [hl] at h; simp at h
+    | some t =>
+      rw [hl] at h
+      simp only at h
+      by_cases hc : (rc && !conc t) = true
+      · simp [hc] at h
+      · simp only [hc, Bool.false_eq_true, if_false] at h
+        cases hr : resultInfo conc rc (rest.map fun p => (p.1, outAfter check thook vhook p.2)) with
+        | error e => rw [hr] at h; simp at h
+        | ok l =>
+          rw [hr] at h
+          simp only [Except.ok.injEq] at h
+          subst h
+          obtain ⟨ih1, ih2⟩ := ih l hr
+          refine ⟨by simp [ih1, hl], fun hrc i hi => ?_⟩
+          rcases List.mem_cons.mp hi with rfl | hi
+          · simpa [hrc] using hc
+          · exact ih2 hrc i hi
+
+/-- **untyped_result_refused.** An output without hook entry cannot be made a result: the build
+    raises (it is never written out with an invented type). -/
+theorem untyped_result_refused (check : T → V → Bool) (thook : List (String × T))
+    (vhook : List (String × V)) (conc : T → Bool) (rc : Bool) (req : List (String × String))
+    (p : String × String) (hp : p ∈ req) (hn : lookup thook p.2 = none) :
+    ∀ infos, resultInfo conc rc (req.map fun p => (p.1, outAfter check thook vhook p.2)) ≠ .ok infos := by
+  intro infos h
+  have h1 := (declared_types_carried check thook vhook conc rc req infos h).1
+  have : (p.1, lookup thook p.2) ∈ req.map (fun p => (p.1, lookup thook p.2)) :=
+    List.mem_map.mpr ⟨p, hp, rfl⟩
+  rw [← h1, hn] at this
+  simp at this
+
+/-- **construct_reports.** `Node.__init__` of a user-defined operator, for every declared output list,
+    `out_variadic`, hook results and flag combination: the output Vars are keyed `field` / `field_i` in
+    declaration order; each reports exactly the type hook's entry for its key when `infer_types` is on
+    and no type at all when it is off (whatever the hook would say); a value only if the Var is typed,
+    `propagate_values` is on, the value hook has an entry and it passes `check`. -/
+theorem construct_reports (check : T → V → Bool) (thook : List (String × T)) (vhook : List (String × V))
+    (fl : Flags) (level : Nat) (conc : T → Bool) (inTypes : List (Option T))
+    (decl : List (String × Bool)) (nvar : Nat) :
+    let outs := (construct check thook vhook fl level conc inTypes decl nvar).1
+    outs.map (·.key) = outKeysOf decl nvar ∧
+    (∀ o ∈ outs, o.type = if fl.inferTypes then lookup thook o.key else none) ∧
+    (∀ o ∈ outs, ∀ v, o.value = some v →
+      fl.propValues = true ∧ lookup vhook o.key = some v ∧ ∃ t, o.type = some t ∧ check t v = true) := by
+  simp only [construct]
+  rw [inference_pointwise]
+  refine ⟨?_, ?_, ?_⟩
+  · simp only [List.map_map]
+    conv => rhs; rw [← List.map_id (outKeysOf decl nvar)]
+    apply List.map_congr_left
+    intro k _
+    exact (declared_type_reported check _ _ k).2
+  · intro o ho
+    obtain ⟨k, _, rfl⟩ := List.mem_map.mp ho
+    rw [(declared_type_reported check _ _ k).1, (declared_type_reported check _ _ k).2]
+    cases fl.inferTypes <;> simp [lookup]
+  · intro o ho v hv
+    obtain ⟨k, _, rfl⟩ := List.mem_map.mp ho
+    have hk := (declared_type_reported check (if fl.inferTypes then thook else []) (if fl.propValues then vhook else []) k)
+    rw [hk.2]
+    unfold outAfter mergeType mergeValue at hv ⊢
+    cases hp : fl.propValues <;> simp only [hp, Bool.false_eq_true, if_false, if_true] at hv ⊢
+    · cases h1 : lookup (if fl.inferTypes then thook else []) k <;> simp [h1, lookup] at hv
+    · cases h1 : lookup (if fl.inferTypes then thook else []) k <;> cases h2 : lookup vhook k <;>
+        simp [h1, h2] at hv ⊢
+      split at hv
+      · simp at hv; subst hv; simp_all
+      · simp at hv
+
+
+example : (match resultInfo (fun (t : String) => t != "f32[?]") true
+      [("r0", outAfter (fun _ (_ : Nat) => true) [("Y", "f32[2]")] [] "Y")] with
+    | .ok l => l == [("r0", "f32[2]")]
+    | .error _ => false) = true := by decide
+example : (match resultInfo (fun (t : String) => t != "f32[?]") true
+      [("r0", outAfter (fun _ (_ : Nat) => true) [("Y", "f32[2]")] [] "Z")] with
+    | .ok _ => false
+    | .error e => e == ResErr.untyped "r0") = true := by decide
+example : (match resultInfo (fun (t : String) => t != "f32[?]") true
+      [("r0", outAfter (fun _ (_ : Nat) => true) [("Y", "f32[?]")] [] "Y")] with
+    | .ok _ => false
+    | .error e => e == ResErr.notConcrete "r0") = true := by decide
+
+end carried
+
+/-! ## composition, the C01 half: a user-defined operator is just another operator of the semantics
+
+`Model/Prog.lean` gives a program its meaning relative to an arbitrary operator semantics
+`Sem.op : label → inputs → bodies → outputs`, and C01's translation validation (`valid_sound`) holds
+for *every* `Sem`. A user-defined operator adds one label whose meaning is whatever the user's
+runtime kernel computes (`f`, a function of the node's inputs — a plain `Node` has no bodies);
+nothing else changes. Hence user-defined operators inherit C01's build soundness verbatim. -/
+
+section c01
+open Prog
+variable {Val : Type} [Inhabited Val]
+
+/-- the semantics extended by a user-defined operator with label `c` and kernel `f` -/
+def withCustom (S : Sem Val) (c : Nat) (f : List (Option Val) → List Val) : Sem Val :=
+  { op := fun l ins bodies => if l = c then f ins else S.op l ins bodies }
+
+/-- **custom_build_sound.** For every semantics of the standard operators, every user-defined
+    operator (label `c`, *any* kernel `f`), every well-formed program — custom nodes anywhere: top
+    level, inside bodies, feeding or fed by control flow — and every emission the validator accepts:
+    running the emitted (nested) graph computes exactly the program's dataflow. -/
+theorem custom_build_sound (S : Sem Val) (c : Nat) (f : List (Option Val) → List Val)
+    (prog : List PNode) (hwf : WF prog) (e : EGraph) (main : PGraph)
+    (hv : validG prog e main [] = true) (b : Nat → Val) (vals : List Val) :
+    evalG (withCustom S c f) prog e (fun _ => none) vals
+      = some (denoteG (withCustom S c f) prog b main vals) :=
+  C01.valid_sound (withCustom S c f) prog hwf e main hv b vals
+
+/-- … inside bodies too (the emission of a body, run where its owner sits) -/
+theorem custom_build_sound_nested (S : Sem Val) (c : Nat) (f : List (Option Val) → List Val)
+    (prog : List PNode) (hwf : WF prog) (g : EGraph) (pg : PGraph) (env : Env Val) (vis : List Nat)
+    (b : Nat → Val) (hv : validG prog g pg vis = true)
+    (henv : EnvOK (withCustom S c f) prog env vis b) (vals : List Val) :
+    evalG (withCustom S c f) prog g env vals = some (denoteG (withCustom S c f) prog b pg vals) :=
+  C01.valid_sound_nested (withCustom S c f) prog hwf g pg env vis b hv henv vals
+
+/-- **custom_node_value.** In that dataflow a custom node's outputs are its kernel applied to the
+    values of its inputs in declared order (`none` for an absent optional) — nothing else … -/
+theorem custom_node_value (S : Sem Val) (c : Nat) (f : List (Option Val) → List Val)
+    (prog : List PNode) (hwf : WF prog) (b : Nat → Val) (k : Nat) (n : PNode)
+    (hk : nodeAt prog k = some n) (hc : n.kind = Kind.op c) :
+    valAt (table (withCustom S c f) prog b) k
+      = f (n.inputs.map (getOpt (table (withCustom S c f) prog b))) := by
+  rw [table_unfold _ prog hwf b k n hk]
+  simp [nodeVal, hc, Kind.label?, withCustom]
+
+/-- … and every other operator keeps its own meaning next to it. -/
+theorem standard_node_value (S : Sem Val) (c : Nat) (f : List (Option Val) → List Val)
+    (prog : List PNode) (hwf : WF prog) (b : Nat → Val) (k : Nat) (n : PNode) (l : Nat)
+    (hk : nodeAt prog k = some n) (hl : n.kind.label? = some l) (hne : l ≠ c) :
+    valAt (table (withCustom S c f) prog b) k
+      = S.op l (n.inputs.map (getOpt (table (withCustom S c f) prog b)))
+          (n.subs.map fun g => fun vals =>
+            g.results.map (getVar (table (withCustom S c f) prog (updArgs b g.args vals)))) := by
+  rw [table_unfold _ prog hwf b k n hk]
+  simp [nodeVal, hl, withCustom, hne]
+
+/-- non-vacuity: `If(c, then: MyOp(x), else: x)` with the custom node emitted inside the then-branch;
+    kernel `MyOp(v) = 3·v` next to the example semantics of C01 -/
+def customInIf : List PNode :=
+  [ { kind := .op 2, inputs := [some ⟨1, 0⟩],
+      subs := [{ args := [], results := [⟨2, 0⟩] }, { args := [], results := [⟨0, 0⟩] }] },
+    { kind := .op 99, inputs := [some ⟨0, 0⟩], subs := [] },
+    { kind := .arg, inputs := [], subs := [] },
+    { kind := .arg, inputs := [], subs := [] } ]
+
+def customInIfEmission : EGraph :=
+  .mk [0, 1] [.mk 3 [.mk [] [.mk 2 []] [⟨2, 0⟩], .mk [] [] [⟨0, 0⟩]]] [⟨3, 0⟩]
+
+example : wfCheck customInIf = true ∧
+    validG customInIf customInIfEmission { args := [0, 1], results := [⟨3, 0⟩] } [] = true := by decide
+
+example : evalG (withCustom C01.exSem 99 fun ins => [3 * ((ins.getD 0 none).getD 0)]) customInIf
+      customInIfEmission (fun _ => none) [5, 1] = some [15] ∧
+    evalG (withCustom C01.exSem 99 fun ins => [3 * ((ins.getD 0 none).getD 0)]) customInIf
+      customInIfEmission (fun _ => none) [5, 0] = some [5] := by decide
+
+end c01
+
 /-! ## non-vacuity -/
 
 /-- `MyOp(a, None, c, rest=[r0, r1])`: inner *and* trailing absent optionals stay -/
@@ -375,5 +577,90 @@ example : maxOpsetPolicy [("", 17), ("my.domain", 2), ("ai.onnx", 18), ("my.doma
 example : inference (fun (t : Nat) (v : Nat) => t == v) [("y", 1), ("junk", 9)] [("y", 2), ("z", 1), ("junk", 0)]
       (freshOuts ["y", "z"]) =
     ([⟨"y", some 1, none⟩, ⟨"z", none, none⟩], [Warn.dropped "y"]) := by decide
+
+/-! ## a user-defined operator inside an inlined model, under opset adaptation -/
+
+section adapt
+open CustomInline
+
+private theorem filter_default_append (l e : List (String × Nat))
+    (he : ∀ i ∈ e, isDefault i.1 = false) :
+    (l ++ e).filter (fun i => isDefault i.1) = l.filter (fun i => isDefault i.1) := by
+  rw [List.filter_append]
+  have : e.filter (fun i => isDefault i.1) = [] := by
+    apply List.filter_eq_nil_iff.mpr
+    intro i hi; simp [he i hi]
+  rw [this, List.append_nil]
+
+/-- **adapt_ignores_foreign.** Whether an inlined model is converted, and from which version to
+    which, does not depend on nodes and opset imports of other domains: adding any number of
+    user-defined (or `ai.onnx.ml`, `com.microsoft`, …) nodes and imports to a model leaves
+    `adapt_inline`'s decision unchanged. -/
+theorem adapt_ignores_foreign (m : Inlined) (target : Nat)
+    (doms : List String) (imps : List (String × Nat))
+    (hd : ∀ d ∈ doms, isDefault d = false) (hi : ∀ i ∈ imps, isDefault i.1 = false) :
+    CustomInline.decide { imports := m.imports ++ imps, nodeDomains := m.nodeDomains ++ doms } target =
+      CustomInline.decide m target := by
+  have h1 : (m.nodeDomains ++ doms).any isDefault = m.nodeDomains.any isDefault := by
+    rw [List.any_append]
+    have : doms.any isDefault = false := by
+      apply List.any_eq_false.mpr
+      intro d hd'; simp [hd d hd']
+    rw [this, Bool.or_false]
+  have h2 : sourceVersion (m.imports ++ imps) target = sourceVersion m.imports target := by
+    unfold sourceVersion
+    rw [filter_default_append _ _ hi]
+  simp only [CustomInline.decide, h1, h2]
+
+/-- **adapt_converts_older.** A model with at least one default-domain node, written against a
+    default-domain version other than the target, is converted — whatever else it contains. -/
+theorem adapt_converts_older (m : Inlined) (target : Nat)
+    (hn : m.nodeDomains.any isDefault = true) (hv : sourceVersion m.imports target ≠ target) :
+    CustomInline.decide m target = .convert (sourceVersion m.imports target) target := by
+  simp [CustomInline.decide, hn, hv]
+
+/-- **convert_keeps_foreign.** The conversion passes every node of another domain through
+    verbatim and in place: the foreign nodes of the result are exactly the foreign nodes of the
+    original, in order (given that the converter's rewrites stay in the default domain). -/
+theorem convert_keeps_foreign {ν : Type} (dom : ν → String) (conv : ν → List ν) (nodes : List ν)
+    (hc : ∀ n, ∀ x ∈ conv n, isDefault (dom x) = true) :
+    (convertNodes dom conv nodes).filter (fun n => !isDefault (dom n)) =
+      nodes.filter (fun n => !isDefault (dom n)) := by
+  induction nodes with
+  | nil => rfl
+  | cons n rest ih =>
+    simp only [convertNodes, List.flatMap_cons, List.filter_append] at ih ⊢
+    by_cases h : isDefault (dom n) = true
+    · have : (conv n).filter (fun x => !isDefault (dom x)) = [] := by
+        apply List.filter_eq_nil_iff.mpr
+        intro x hx; simp [hc n x hx]
+      simp only [h, if_true, this, List.nil_append, List.filter_cons, Bool.not_true, Bool.false_eq_true, if_false]
+      exact ih
+    · have h' : isDefault (dom n) = false := by simpa using h
+      simp only [h', Bool.false_eq_true, if_false, List.filter_cons, Bool.not_false, if_true,
+        List.filter_nil, List.cons_append, List.nil_append]
+      exact congrArg _ ih
+
+/-- non-vacuity: ai.onnx 12 + `my.domain` 2 under target 19 is converted 12 → 19, with or
+    without the custom node; a model of custom nodes only is kept -/
+example : CustomInline.decide { imports := [("", 12), ("my.domain", 2)], nodeDomains := ["my.domain", "", "my.domain"] } 19
+    = .convert 12 19 := by decide
+example : CustomInline.decide { imports := [("", 12)], nodeDomains := [""] } 19 = .convert 12 19 := by decide
+example : CustomInline.decide { imports := [("", 12), ("my.domain", 2)], nodeDomains := ["my.domain"] } 19 = .keep := by decide
+
+/-- **adapt_exits_covered** (tie G). The exits of `adapt_inline`, as read from `src/spox/_adapt.py` on this
+    run, are exactly the three branches `CustomInline.decide` has: an added early exit — whatever its
+    condition, whatever inputs the oracles generate — breaks this obligation. -/
+theorem adapt_exits_covered :
+    Generated.AdaptAttrInventory.adaptInlineExits = CustomInline.coveredExits := by decide +kernel
+
+/-- **adapt_functions_covered** (tie G). `_adapt.py` as a whole: its functions and the (kind, guards) of
+    every exit of each. -/
+theorem adapt_functions_covered :
+    Generated.AdaptAttrInventory.adaptFunctions.map
+      (fun f => (f.1, f.2.2.1.map (fun e => (e.1, e.2.2)))) = CustomInline.coveredFunctions := by
+  decide +kernel
+
+end adapt
 
 end C18
